@@ -366,7 +366,8 @@ func (e *explorer) mergeOut(out map[string]int) {
 }
 
 func TestCheck(t *testing.T) {
-	r := vk.Start("C09", "model_checking", 170*time.Second, 24*time.Minute)
+	// the other parts of C09 (conc, concrace) run after this one: leave them room
+	r := vk.Start("C09", "model_checking", 150*time.Second, 23*time.Minute)
 	defer vk.CleanScratch()
 	if r.Replay != "" {
 		replay(r)
